@@ -50,6 +50,59 @@ Section Leapfrog.
     - apply flipm_invol.
     - rewrite (iterl_comm n s). rewrite lf_flip_lf. apply IH.
   Qed.
+
+  (** ** volume preservation for affine gradients (Gaussian targets): n leapfrog steps are an
+      affine map of phase space whose linear part has determinant one *)
+  Section Volume.
+    Variables a b : R.
+    Hypothesis Gaff : forall x, G x = add (mul a x) b.
+
+    Definition mat := (R * R * R * R)%type.
+    Definition det (M : mat) : R := let '(m11, m12, m21, m22) := M in sub (mul m11 m22) (mul m12 m21).
+    Definition aff (M : mat) (c : R * R) (s : R * R) : R * R :=
+      let '(m11, m12, m21, m22) := M in
+      (add (add (mul m11 (fst s)) (mul m12 (snd s))) (fst c),
+       add (add (mul m21 (fst s)) (mul m22 (snd s))) (snd c)).
+    Definition mmul (M N : mat) : mat :=
+      let '(m11, m12, m21, m22) := M in let '(n11, n12, n21, n22) := N in
+      (add (mul m11 n11) (mul m12 n21), add (mul m11 n12) (mul m12 n22),
+       add (mul m21 n11) (mul m22 n21), add (mul m21 n12) (mul m22 n22)).
+
+    Definition Lmat : mat :=
+      let eha := mul (mul e h) a in
+      (add one eha, e, mul (mul h a) (add (add one one) eha), add one eha).
+    Definition Lvec : R * R :=
+      (mul (mul e h) b, add (add (mul h b) (mul (mul (mul h a) (mul e h)) b)) (mul h b)).
+
+    Lemma lf_affine s : lf s = aff Lmat Lvec s.
+    Proof.
+      destruct s as [x p]. unfold lf, aff, Lmat, Lvec. cbn [fst snd]. rewrite !Gaff. f_equal; ring.
+    Qed.
+
+    Lemma det_Lmat : det Lmat = one.
+    Proof. unfold det, Lmat. ring. Qed.
+
+    Lemma det_mmul M N : det (mmul M N) = mul (det M) (det N).
+    Proof. destruct M as [[[m11 m12] m21] m22], N as [[[n11 n12] n21] n22]. unfold det, mmul. ring. Qed.
+
+    Lemma aff_comp M c N d s :
+      aff M c (aff N d s) = aff (mmul M N) (aff M c d) s.
+    Proof.
+      destruct M as [[[m11 m12] m21] m22], N as [[[n11 n12] n21] n22], s as [x p], c as [c1 c2], d as [d1 d2].
+      unfold aff, mmul. cbn [fst snd]. f_equal; ring.
+    Qed.
+
+    Theorem leapfrog_volume n : exists M c, (forall s, iterl n s = aff M c s) /\ det M = one.
+    Proof.
+      induction n as [|n [M [c [HM HD]]]].
+      - exists (one, zero, zero, one), (zero, zero). split.
+        + intros [x p]. unfold aff. cbn [iterl fst snd]. f_equal; ring.
+        + unfold det. ring.
+      - exists (mmul M Lmat), (aff M c Lvec). split.
+        + intros s. cbn [iterl]. rewrite HM, lf_affine. apply aff_comp.
+        + rewrite det_mmul, HD, det_Lmat. ring.
+    Qed.
+  End Volume.
 End Leapfrog.
 
 (** ** Metropolis-Hastings balance: with acceptance probability min(1, b/a)
